@@ -72,7 +72,7 @@ def _ann(a) -> str:
 CALL_RE = re.compile(r"when calling (.*?)(?: \(which (?:returns|raises) .*\))?$", re.S)
 
 
-def analyse(fn, timeout: float, report_all: bool = True):
+def analyse(fn, timeout: float, report_all: bool = True, per_path: float | None = None):
     from crosshair.core import analyze_function, run_checkables
     from crosshair.core_and_libs import standalone_statespace  # noqa: F401 (loads plugins)
     from crosshair.options import AnalysisOptionSet
@@ -95,7 +95,7 @@ def analyse(fn, timeout: float, report_all: bool = True):
     stats: collections.Counter = collections.Counter()
     opts = AnalysisOptionSet(
         per_condition_timeout=float(timeout),
-        per_path_timeout=max(5.0, float(timeout) / 4),
+        per_path_timeout=per_path if per_path is not None else max(5.0, float(timeout) / 4),
         report_all=report_all,
         stats=stats,
         max_uninteresting_iterations=sys.maxsize,
@@ -153,7 +153,8 @@ def main() -> int:
         twin_dir = os.environ.get("VERIF_TWIN_DIR") or os.path.dirname(outp)
         if os.environ.get("VERIF_NO_TWIN") != "1":
             twin = make_twin(mod, fn, twin_dir)
-            tmsgs, tstats, twall = analyse(twin, min(timeout, 60.0), report_all=True)
+            # (the twin gets the per-path allowance of the main run: a harness whose first symbolic path is slow is not vacuous)
+            tmsgs, tstats, twall = analyse(twin, min(timeout, 120.0), report_all=True, per_path=max(5.0, float(timeout) / 4))
             tv = verdict_of(tmsgs)
             rec["twin"] = {
                 "verdict": "reachable" if tv == "counterexample" else tv,
